@@ -1,6 +1,10 @@
 package gonum
 
-import "gonum.org/v1/gonum/blas"
+import (
+	"math"
+
+	"gonum.org/v1/gonum/blas"
+)
 
 // complex128 Level 2 / Level 3 routines not covered by zz_verif_c01_z.go.
 
@@ -630,9 +634,20 @@ func verifC01z2absF(x float64) float64 {
 	return verifIteF(x < 0, -x, x)
 }
 
+// verifC01z2finite: the cells are finite values of their type. In model R a symbolic value is an
+// arbitrary real number; code that tests against the largest finite value (math32.IsInf in Scnrm2 is
+// f > MaxFloat32) needs the range stated.
+func verifC01z2finite(x []complex128) {
+	for _, v := range x {
+		verifAssume(verifAnd(real(v) <= math.MaxFloat64, real(v) >= -math.MaxFloat64))
+		verifAssume(verifAnd(imag(v) <= math.MaxFloat64, imag(v) >= -math.MaxFloat64))
+	}
+}
+
 // VerifC01_Dzasum: result = sum |Re x[i]| + |Im x[i]| over addressed elements; x unchanged.
+// (n <= zl1n: math32.Abs forks three ways per call, the complex64 twin has 9^n paths.)
 func VerifC01_Dzasum() {
-	n := verifChoose("n", 0, verifParam("l1n", 4))
+	n := verifChoose("n", 0, verifParam("zl1n", 3))
 	incX := verifC01posinc("incX")
 	slack := verifChoose("slack", 0, 1)
 	x := verifComplexes("x", verifC01vlen(n, incX, slack))
@@ -649,7 +664,7 @@ func VerifC01_Dzasum() {
 
 // VerifC01_Izamax: first index of the maximum |Re x[i]|+|Im x[i]| over addressed elements; -1 for n == 0.
 func VerifC01_Izamax() {
-	n := verifChoose("n", 0, verifParam("l1n", 4)-1)
+	n := verifChoose("n", 0, verifParam("zl1n", 3))
 	incX := verifC01posinc("incX")
 	slack := verifChoose("slack", 0, 1)
 	x := verifComplexes("x", verifC01vlen(n, incX, slack))
@@ -683,6 +698,7 @@ func VerifC01_Dznrm2() {
 	incX := verifC01posinc("incX")
 	slack := verifChoose("slack", 0, 1)
 	x := verifComplexes("x", verifC01vlen(n, incX, slack))
+	verifC01z2finite(x)
 	x0 := verifC01zclone(x)
 	got := Implementation{}.Dznrm2(n, x, incX)
 	verifC01zsame(x, x0, "Dznrm2: x unchanged")
